@@ -72,17 +72,26 @@ CLAIMS['C11'] = dict(
     text='Clause claimed: "ground constants influence only the far field". Proof by a reads clause over the call-graph closure of '
          'everything that determines currents and impedances (no attribute of a medium is read, no Medium method is reachable, '
          '`media` is used only as None-test / truthiness / len) plus the verified contract of Geobj.compute_ground (grounding '
-         'depends on `media is None` and the 1e-3 tolerance only). The limit and split/far-medium clauses are NOT decided '
-         'deductively (vectorised Fresnel code); they are only exercised by the bounded native sweep.',
-    note='clause-only claim; call graph by method name and arity (over-approximation); floats as reals',
+         'depends on `media is None` and the 1e-3 tolerance only), plus a taint frame: nothing that media-dependent code stores on the '
+         'objects is read back by the current computation. Far-field side, on three slices of the real-ground branch of '
+         'compute_far_field run on 1x1 arrays of symbolic values (shape-bounded): the reflection-point distance, the medium lookup '
+         '(1..3 media; lemmas: a further medium beyond the reflection point / splitting a medium select the same constants), the radial '
+         'screen and the Fresnel coefficients with the perfect-conductor limit v = 1, h = 0. The rate of convergence and the rest of the '
+         'real-ground summation are only exercised by the bounded native sweep.',
+    note='clause-wise claim; call graph by method name and arity (over-approximation); complex sqrt / log uninterpreted; floats as reals',
     design_ref='DESIGN.md §5 C11')
 CLAIMS['C10'] = dict(
     text='Clause claimed: "the dBi and V/m tables describe the same field". Proof, pointwise for an arbitrary direction and arbitrary '
          'complex field components, on the real tail slice of compute_far_field and Far_Field_Pattern.__init__: each gain is '
          '10log10(.016678|E|^2/P) with the -999 floor, the total is the power sum, E = field/distance*sqrt(P_requested/P), and '
-         'gain = |E|^2 r^2/(59.96 P) within 2e-5; scaling lemma. The radiation-integral, periodicity and zenith clauses are not '
-         'decided deductively (bounded native sweep with an independent radiation integral only).',
-    note='clause-only claim; slice executed at array shape 1x1 (elementwise statements); log/sqrt uninterpreted with axioms; floats as reals',
+         'gain = |E|^2 r^2/(59.96 P) within 2e-5; scaling lemma. Clause "radiation sum of the pulse currents plus image currents" '
+         '(free space / ideal ground): the middle of compute_far_field (direction vectors, the loop over image_iter(), projections on '
+         'theta^ and phi^) is executed on arrays of 1 zenith x 2 azimuths x 2 pulses with symbolic values and a pulse grounded at '
+         'either end, and equals the sum of half-segment moments and mirror images written from the property -- SHAPE-BOUNDED '
+         '(values unbounded), so other array shapes rest on the native sweep. Not decided deductively: the 2 % agreement with the exact '
+         'integral, 360-degree periodicity, zenith independence.',
+    note='clause-wise claim; tail slice at array shape 1x1, radiation sum at 1x2x2 (numpy semantics executed by numpy on object arrays); '
+         'log/sqrt/cos/sin uninterpreted with axioms; floats as reals',
     design_ref='DESIGN.md §5 C10')
 CLAIMS['C13'] = dict(
     category='other',
@@ -90,18 +99,25 @@ CLAIMS['C13'] = dict(
          'chaining from end 1 to end 2, loop invariant), Curve.compute_segments (one segment per pair of consecutive points, min_seglen a '
          'lower bound of all), Arc.__init__ (n+1 points on the circle at uniform angles, validation), Rotation_Matrix (orthogonal, det 1, '
          '= Rz*Ry*Rx), Wire.rotate/scale/translate (scale includes the radius), Geo_Container.rotate/scale/translate (tagged object or '
-         'every object exactly once, bookkeeping for the writer). BOUNDED stand-in, never counted as proved: taper1/taper2 growth, '
-         'limits and mirror; helix points; transformation order through main().',
-    note='level "other" because part of the property (tapers, helix) is bounded only; trig/sqrt axioms; floats as reals',
+         'every object exactly once, bookkeeping for the writer), Helix.__init__ (loop rule: uniform height, point on the linearly tapered '
+         'ellipse, start/end points, validation), the emitting loops of taper1/taper2 and the effective taper minimum max(2.5 r, min). '
+         'BOUNDED stand-in, never counted as proved: the search loops of taper1/taper2 that choose the number of tapered segments '
+         '(growth, limits, mirror); transformation order through main() is a C20 unit.',
+    note='level "other" because part of the property (taper search loops) is bounded only; trig/sqrt axioms; polynomial identities under '
+         'cos^2+sin^2=1 by z3-checked certificates; floats as reals',
     design_ref='DESIGN.md §5 C13')
 CLAIMS['C19'] = dict(
     category='other',
     text='Proof over abstract strings: for every writer of the report (geometry rows, media, source blocks and listing, load lines, '
          'frequency, current table, far-field dBi and V/m tables, near-field tables) every numeric conversion reaching the text is a '
          'format_float token, %g, or %d of an integer, each field carries exactly the value the statement names, and magnitude/phase '
-         'columns are np.abs / np.angle*180/pi of the same complex number as the real/imaginary columns. BOUNDED stand-in (never counted as '
-         'proved): format_float\'s digit-string manipulation, swept over a rounding-boundary lattice of 8000+ values. One recorded finding (C19-p).',
-    note='level "other": format_float is bounded only; structure (row counts) is proved under C09/C16/C17; % rendering classes trusted',
+         'columns are np.abs / np.angle*180/pi of the same complex number as the real/imaginary columns. format_float itself is executed on '
+         'digit strings (sign, integer of digits, number of integer/fractional digits, point, padding) for every decade 1e-31..1e13, both signs, '
+         'use_e on/off and zero, over the reals: the text read back is within 5e-6 relative (1e-6 absolute for fixed-point fields), shows the '
+         'sign of the value or zero, never -0. BOUNDED stand-in (never counted as proved): float64 effects in format_float (log quotient at exact '
+         'powers of ten, binary rounding of %), swept over a rounding-boundary lattice of 8000+ values. One recorded finding (C19-p).',
+    note='level "other": the rendering axiom of % (|M - |x|*10^N| <= 1/2) and exact real log10 are assumed, float64 effects are bounded only; '
+         'structure (row counts) is proved under C09/C16/C17',
     design_ref='DESIGN.md §5 C19')
 CLAIMS['C12'] = dict(
     text='Proof: Pulse.__init__ (registration, owner = later object, ground flags, sign flips), Geobj.idx / Connected_Geobj.idx, both '
@@ -117,8 +133,10 @@ CLAIMS['C20'] = dict(
     text='Clause claimed: the parse/build stage. Proof over abstract option strings: the readers of -w, -a, --helix, --excitation-pulse, '
          '--attach-load, --medium, --taper-wire, --rlc-load and --trap-load, executed for every field layout (arity, lexical kind of every '
          'field) and with callees raising whatever their contracts allow, either complete silently or return 23 after exactly one printed '
-         'line; no exception escapes; well-formed values reach the constructors in the documented positions. The numeric stage and the '
-         'remaining readers are exercised by the native fuzz only; 7 recorded findings (C20-*).',
+         'line; no exception escapes; well-formed values reach the constructors in the documented positions. Likewise the readers of '
+         '--laplace-load-a/-b (pairing), --skin-effect-conductivity/-resistivity, --insulation-load, --geo-rotate/-translate/-scale and the '
+         'order of application (equal sort keys included), --phi, --theta, --near-field. The numeric stage, frequency options and the '
+         'sweep loop are exercised by the native fuzz only; 7 recorded findings (C20-*).',
     note='clause-only claim; argparse axioms; constructor raises clauses as summarised',
     design_ref='DESIGN.md §5 C20')
 CLAIMS['C15'] = dict(
@@ -126,7 +144,11 @@ CLAIMS['C15'] = dict(
          '--excitation-voltage/-pulse and --medium (+ --boundary/--radial-* presence): the real writer is executed on an object with arbitrary '
          'field values, its text is fed to the real reader slice of main(), and the constructor arguments are compared with the fields '
          '(positions by the real signatures); complex literals are decided through rendering classes with Python\'s own complex(). '
-         'Remaining option classes and sequence-level clauses: bounded native round trip only.',
+         'Also: --rlc-load/--trap-load, --laplace-load-a/-b, --skin-effect-conductivity/-resistivity, --insulation-load, '
+         '--geo-rotate/-translate/-scale; the --attach-load lines of a lumped load (shape-bounded model of 2 objects / 3 pulses, every '
+         'subset, symbolic tags and numbers) attach exactly the load\'s pulses once each when read back; Mininec.as_cmdline writes frequency, '
+         'geometry, every source, medium and load once and in order (shape-bounded) and its --theta/--phi lines read back. '
+         'Load numbering and whole-model round trips: bounded native round trip only.',
     note='printed precision abstracted (a %g token carries its value); argparse axioms',
     design_ref='DESIGN.md §5 C15, Appendix E')
 CLAIMS['C18'] = dict(
@@ -145,6 +167,9 @@ CLAIMS['C04'] = dict(
          'unbounded) for a container of two pulses, each pulse index and both image signs -- BOUNDED in the array shape, so not counted as a '
          'proof: each component is psi(lower half) * sign_1 * direction of segment 1 (* ground sign on z) + psi(upper half) * sign_2 * direction '
          'of segment 2, times the image vector, with psi called on exactly the mirrored half-segment ends. Everything else of the property '
+         'Also decided (2 pulses, symbolic grounding flags): the image pass of compute_near_field takes exactly the pulses with no grounded '
+         'end (a grounded pulse carries its image half itself by nf_helper\'s contract), and every accumulation of the pass goes through that mask. '
+         'Everything else of the property '
          '(scalar potential, curl, far-field convergence) is exercised by the bounded native sweep only; one recorded finding (C04-unequal-junction).',
     note='clause-only, shape-bounded (2 pulses, scalar index); psi by contract',
     design_ref='DESIGN.md §5 C04')
